@@ -537,7 +537,11 @@ def s_token(cx):
             # words with accents, short words and neighbours sharing long prefixes are the interesting ones
             acc = [j for j in range(2048) if any(x >= 128 for x in ws[j])] if Lg["has_accents"] else []
             sel.update(r.sample(acc, min(len(acc), 120)))
-            sel.update(j for j in range(2048) if len(ws[j]) <= 3 and Lg["has_prefix"])
+            # (length in letters: combining marks do not count - "an~o" is a three-letter word of five bytes)
+            def letters(w):
+                return sum(1 for ch in w.decode("utf-8") if not unicodedata.combining(ch))
+            sel.update(j for j in range(2048) if Lg["has_prefix"] and
+                       (letters(ws[j]) <= 3 or (letters(ws[j]) <= 4 and len(ws[j]) > letters(ws[j]))))
             sel.update([0, 1, 2046, 2047])
         else:
             sel = range(2048)
